@@ -11,8 +11,8 @@
     skips 8 / 4 bytes (unknown field);
   * wire types 4, 6, 7 and field numbers outside 1 .. 2^29-1 are decoding errors; so is any truncation and any
     uvarint longer than 10 bytes or with a 10th byte > 1;
-  * wire type 3 (start of a deprecated group) is NOT modelled: the model answers `none` and the correspondence
-    generator never emits it (DESIGN.md, C13).
+  * wire type 3 (start of a deprecated group): an unknown field, skipped up to the matching end-group tag, nested
+    groups included (`skipGroup`); the library's nesting limit of 10 000 levels is not modelled.
 
   The typed views `Patch.asSyncOp` etc. then pick the last value of each declared field with the declared
   wire type, as the generated Go code does.
@@ -32,6 +32,37 @@ def toU64 (v : Int) : Nat := (v % (two64 : Int)).toNat
 
 /-- ... and back (`int64(uint64)`). -/
 def ofU64 (n : Nat) : Int := if n < two63 then (n : Int) else (n : Int) - (two64 : Int)
+
+/-- `protowire.ConsumeFieldValue` for a start-group (deprecated wire type 3; none of the modelled messages declares
+    one, so it is an unknown field): skip fields until the end-group tag with the same field number; nested groups
+    are skipped recursively. Tags inside a group go through `protowire.ConsumeTag` (field number 1 .. 2^31-1).
+    Returns the bytes after the group. (The library's nesting limit of 10 000 is not modelled.) -/
+def skipGroup : Nat → Nat → List Byte → Option (List Byte)
+  | 0, _, _ => none
+  | fuel + 1, num, s =>
+    match readUvarint s with
+    | none => none
+    | some (key, rest) =>
+      let f := key / 8
+      if f = 0 ∨ f > 2147483647 then none
+      else if key % 8 = 4 then (if f = num then some rest else none)
+      else if key % 8 = 0 then
+        match readUvarint rest with
+        | none => none
+        | some (_, r) => skipGroup fuel num r
+      else if key % 8 = 2 then
+        match readUvarint rest with
+        | none => none
+        | some (len, r) => if r.length < len then none else skipGroup fuel num (r.drop len)
+      else if key % 8 = 1 then
+        if rest.length < 8 then none else skipGroup fuel num (rest.drop 8)
+      else if key % 8 = 5 then
+        if rest.length < 4 then none else skipGroup fuel num (rest.drop 4)
+      else if key % 8 = 3 then
+        match skipGroup fuel f rest with
+        | none => none
+        | some r => skipGroup fuel num r
+      else none
 
 def encField : Nat × WVal → List Byte
   | (f, .varint v) => uvarint (f * 8) ++ uvarint (toU64 v)
@@ -65,6 +96,10 @@ def decode : Nat → List Byte → Option WMsg
           if rest.length < 8 then none else decode fuel (rest.drop 8)
         else if key % 8 = 5 then
           if rest.length < 4 then none else decode fuel (rest.drop 4)
+        else if key % 8 = 3 then
+          match skipGroup fuel f rest with
+          | none => none
+          | some r => decode fuel r
         else none
 
 def unmarshal (s : List Byte) : Option WMsg := decode (s.length + 1) s
